@@ -138,6 +138,9 @@ func (r *run) afterCallHandler() {
 		if i >= len(r.snap) {
 			break
 		}
+		if !r.eqAtRecv[i] {
+			continue // already reported when it was obtained
+		}
 		if g, err := normalize(r.R[i]); err != nil || !proto.Equal(g, r.snap[i]) {
 			r.add("response-changed-later", fmt.Sprintf("response #%d equalled the message the handler handed over when the caller obtained it and no longer does at the end of the case, although the caller has not touched it: what the handler did to its own object afterwards shows in the caller's response (now %s, handed over %s)", i, short(mustCanon(r.R[i])), short(r.snapCanon[i])))
 		}
